@@ -903,6 +903,7 @@ func TestC12(t *testing.T) {
 	// installation sites (extracted table, via the oracle) against what each phase needs: search for
 	// a needed frame that the installed program hides
 	c12SiteSearch(t, rep, orc, base, siteFrames)
+	c12Compose(t, rep, rng, kern, env.Scale(6, 60))
 
 	// generator self-check: every decision class of every filter was exercised
 	want := []string{
